@@ -6,9 +6,8 @@ use super::FixtureDatabase;
 use std::collections::{BTreeMap, BTreeSet, HashMap, HashSet};
 // verification hook: solver-friendly set/map stand-ins of the harness crate (see /verif/DESIGN.md §9)
 #[cfg(pytest_language_server_verif)]
-use crate::verif_collections::{HashMap, HashSet};
-#[cfg(pytest_language_server_verif)]
-use std::collections::{BTreeMap, BTreeSet};
+#[allow(unused_imports)]
+use crate::verif_collections::*;
 use std::path::{Path, PathBuf};
 
 impl FixtureDatabase {
